@@ -274,17 +274,53 @@ Example percentile_hyp_satisfiable :
   bi_percentile [VList (nums l); VNum p] = Ok (VNum n1).
 Proof. vm_compute. repeat split; congruence. Qed.
 
-(* ---------------------------------------------------------------- panics: the known findings *)
-(* An arity-respecting call of any of the ten built-ins aborts exactly on the two open
-   known-finding classes (known_C15): a NaN among >= 2 numbers reaching the sort of median /
-   percentile, and percentile of an empty list (with p in range).  args_ok: a percentile call has
-   a genuine double p and a list of at most 2^53 elements. *)
-Theorem C15_panic_iff_known : forall a args, args_ok args ->
-  (checked_call a args = Panic <-> known_C15 a args = true).
-Proof. exact panic_iff_known. Qed.
-Check C15_panic_iff_known : forall a args, args_ok args ->
-  (checked_call a args = Panic <-> known_C15 a args = true).
-Print Assumptions C15_panic_iff_known.
+(* ---------------------------------------------------------------- no panics *)
+(* An arity-respecting call of any of the ten built-ins returns a value or an error — it never
+   aborts (and is never ErrDepth / Unmodelled).  args_ok: a percentile call has a genuine double p
+   and a list of at most 2^53 elements.  Before /repo commit 710ac9a this statement was refuted by
+   the faithful model (median(0/0, 1), percentile([0/0, 1], 50), percentile([], 50): DESIGN section
+   7 F1/F2, known/C15.json, now "fixed"); the witnesses stay in corpus/C15 as regression inputs. *)
+Theorem C15_checked_call_total : forall a args, args_ok args -> ok_or_err (checked_call a args).
+Proof. exact checked_call_total. Qed.
+Check C15_checked_call_total : forall a args, args_ok args -> ok_or_err (checked_call a args).
+Print Assumptions C15_checked_call_total.
+
+Theorem C15_no_panic : forall a args, args_ok args -> checked_call a args <> Panic.
+Proof. exact no_panic. Qed.
+Check C15_no_panic : forall a args, args_ok args -> checked_call a args <> Panic.
+Print Assumptions C15_no_panic.
+
+Example args_ok_satisfiable :
+  args_ok [VList [VNum nnan; VNum n1]; VNum (nb 0x4049000000000000)] /\
+  checked_call APercentile [VList [VNum nnan; VNum n1]; VNum (nb 0x4049000000000000)] = Ok (VNum nnan) /\
+  checked_call AMedian [VNum nnan; VNum n1] = Ok (VNum nnan) /\
+  checked_call APercentile [VList []; VNum (nb 0x4049000000000000)] = Err.
+Proof.
+  split; [|vm_compute; repeat split].
+  intros vs p H. injection H as <- <-. split; vm_compute; congruence.
+Qed.
+
+(* what the guards return: NaN propagates through median / percentile, the empty list is an error *)
+Theorem C15_median_nan : forall args ns, collect_nums args = Ok ns -> ns <> [] -> has_nan ns = true ->
+  bi_median args = Ok (VNum nnan).
+Proof. exact median_nan. Qed.
+Check C15_median_nan : forall args ns, collect_nums args = Ok ns -> ns <> [] -> has_nan ns = true ->
+  bi_median args = Ok (VNum nnan).
+Print Assumptions C15_median_nan.
+
+Theorem C15_percentile_nan : forall vs p ns, valid p = true -> len vs <= 2^53 -> in_0_100 p = true ->
+  mapM as_number vs = Ok ns -> ns <> [] -> has_nan ns = true ->
+  bi_percentile [VList vs; VNum p] = Ok (VNum nnan).
+Proof. exact percentile_nan. Qed.
+Check C15_percentile_nan : forall vs p ns, valid p = true -> len vs <= 2^53 -> in_0_100 p = true ->
+  mapM as_number vs = Ok ns -> ns <> [] -> has_nan ns = true ->
+  bi_percentile [VList vs; VNum p] = Ok (VNum nnan).
+Print Assumptions C15_percentile_nan.
+
+Theorem C15_percentile_empty : forall p, in_0_100 p = true -> bi_percentile [VList []; VNum p] = Err.
+Proof. exact percentile_empty. Qed.
+Check C15_percentile_empty : forall p, in_0_100 p = true -> bi_percentile [VList []; VNum p] = Err.
+Print Assumptions C15_percentile_empty.
 
 (* debug (overflow-checked) and release builds give the same outcome for percentile *)
 Theorem C15_percentile_build_independent : forall args,
@@ -293,50 +329,6 @@ Proof. exact percentile_build_independent. Qed.
 Check C15_percentile_build_independent : forall args,
   bi_percentile_gen true args = bi_percentile_gen false args.
 Print Assumptions C15_percentile_build_independent.
-
-(* the statements "median / percentile never abort" are refuted by the faithful model; the
-   witnesses are the known-finding witnesses and are replayed on the implementation by the check *)
-Lemma C15_median_nan_refuted :
-  exists args, args_ok args /\ checked_call AMedian args = Panic.
-Proof.
-  exists [VNum nnan; VNum n1]. split; [intros vs p H; discriminate|vm_compute; reflexivity].
-Qed.
-Lemma C15_percentile_nan_refuted :
-  exists args, args_ok args /\ checked_call APercentile args = Panic.
-Proof.
-  exists [VList [VNum nnan; VNum n1]; VNum (nb 0x4049000000000000)]. split.
-  - intros vs p H. injection H as <- <-. split; vm_compute; congruence.
-  - vm_compute. reflexivity.
-Qed.
-Lemma C15_percentile_empty_refuted :
-  exists args, args_ok args /\ checked_call APercentile args = Panic.
-Proof.
-  exists [VList []; VNum (nb 0x4049000000000000)]. split.
-  - intros vs p H. injection H as <- <-. split; vm_compute; congruence.
-  - vm_compute. reflexivity.
-Qed.
-
-(* the proposed repair (fixes/C15-median-percentile-nan-empty.diff, modelled by bi_median_fixed /
-   bi_percentile_fixed): never aborts, returns NaN (or an error for the empty list) on the known
-   classes, and changes nothing outside them *)
-Theorem C15_fixed_no_panic : forall a args, args_ok args -> checked_call_fixed a args <> Panic.
-Proof. exact fixed_no_panic. Qed.
-Check C15_fixed_no_panic : forall a args, args_ok args -> checked_call_fixed a args <> Panic.
-Print Assumptions C15_fixed_no_panic.
-
-Theorem C15_fixed_conservative : forall a args, args_ok args ->
-  known_C15 a args = false -> checked_call_fixed a args = checked_call a args.
-Proof. exact fixed_conservative. Qed.
-Check C15_fixed_conservative : forall a args, args_ok args ->
-  known_C15 a args = false -> checked_call_fixed a args = checked_call a args.
-Print Assumptions C15_fixed_conservative.
-
-Theorem C15_fixed_on_known : forall a args, known_C15 a args = true ->
-  bi_agg_fixed a args = Ok (VNum nnan) \/ (a = APercentile /\ bi_agg_fixed a args = Err).
-Proof. exact fixed_on_known. Qed.
-Check C15_fixed_on_known : forall a args, known_C15 a args = true ->
-  bi_agg_fixed a args = Ok (VNum nnan) \/ (a = APercentile /\ bi_agg_fixed a args = Err).
-Print Assumptions C15_fixed_on_known.
 
 (* ---------------------------------------------------------------- "up to rounding" *)
 (* R_of x is the real value of a double (Flocq's SF2R), u = 2^-53, finv x = a genuine finite
